@@ -37,7 +37,9 @@ pub fn file_paths(n: usize) -> Vec<PathBuf> {
 /// the second fragment of every file but the first is called `Shared`: fragments are identified by
 /// (defining file, name), and equal names in different files must not be confused by the resolver
 fn frag_names(i: usize) -> [String; 2] {
-    [format!("F{i}a"), if i == 0 { format!("F{i}b") } else { "Shared".to_string() }]
+    // (file 0's second fragment starts with the letters of the `from` keyword of the import line; file 1's first one
+    // starts with `import`)
+    [if i == 1 { "importedF1a".to_string() } else { format!("F{i}a") }, if i == 0 { "fromRoot".to_string() } else { "Shared".to_string() }]
 }
 
 /// relative spelling of `to` seen from `from` (variant 0 = canonical)
